@@ -863,3 +863,22 @@ Section Generate2.
       rewrite (cmp_trans _ _ _ _ Hle He) in Em2. discriminate.
   Qed.
 End Generate2.
+
+(* ------------------------------------------------------------ padVersions is partial *)
+
+(* padVersions panics ("unable to parse latest release version") exactly when
+   parseSemver fails on the latest release: fmt.Sscanf("%d") rejects a
+   component above the int range. *)
+Theorem pad_defined_iff vcmp canonical prerelease versions patts pd :
+  pad_versions vcmp canonical prerelease versions patts pd = None
+  <-> parse_mmp (latest_release vcmp canonical prerelease (sem_sort vcmp versions)) = None.
+Proof.
+  unfold pad_versions. destruct (parse_mmp _) as [[[M m] p]|]; split; intro H; try discriminate; reflexivity.
+Qed.
+
+(* witness: a valid semantic version whose major number is 2^63 *)
+Theorem pad_total_refuted :
+  pad_versions (fun _ => bcmp) (fun v => v) (fun _ => [])
+    [[118; 57; 50; 50; 51; 51; 55; 50; 48; 51; 54; 56; 53; 52; 55; 55; 53; 56; 48; 56; 46; 48; 46; 48]] []
+    (mkPad 1 1 1 1 0) = None.
+Proof. vm_compute. reflexivity. Qed.
